@@ -1,8 +1,8 @@
 #!/bin/bash
 # confirm_seeded.sh <out_dir_with_patchN_demoN> <N> <name>
 # Confirms in a scratch worktree of /repo HEAD (outside /repo and /verif, removed afterwards) that
-#  (1) the demo passes on the pristine tree, (2) the patch applies and the full suite is still green,
-#  (3) the demo fails with the patch. Writes <out_dir>/confirm<N>.txt with the verdict.
+#  (1) the patch applies and the full suite is still green, (2) the demo fails with the patch,
+#  (3) the demo passes on the pristine tree. Writes <out_dir>/confirm<N>.txt with the verdict.
 src="$1"; n="$2"; name="$3"
 wt=/tmp/sw/$name
 log="$src/confirm$n.txt"
@@ -12,25 +12,30 @@ cd "$wt"
 export CARGO_NET_OFFLINE=true
 demo="$src/demo$n.rs"
 tname="seeded_demo_$n"
+feat=""
+grep -q "protobuf" "$src/notes$n.md" 2>/dev/null && grep -qi "features protobuf" "$src/notes$n.md" && feat="--features protobuf"
 {
 echo "repo HEAD: $(git -C /repo rev-parse --short HEAD)"
-if [ -f "$demo" ]; then cp "$demo" tests/$tname.rs; elif [ -d "$src/demo$n" ]; then cp "$src/demo$n"/*.rs tests/ ; tname=$(basename $(ls "$src/demo$n"/*.rs | head -1) .rs); fi
-echo "== demo on pristine"
-cargo test --offline --test $tname 2>&1 | grep -E "^test result|^error" | head -5
-pr=$(cargo test --offline --test $tname 2>&1 | grep -cE "^test result: ok")
 echo "== apply patch"
 if ! git apply --3way "$src/patch$n.diff" 2>&1; then
   if ! patch -p1 --fuzz=3 < "$src/patch$n.diff"; then echo "VERDICT: PATCH-DOES-NOT-APPLY"; cd /; git -C /repo worktree remove --force "$wt"; exit 0; fi
 fi
+git reset -q
 git diff --stat | tail -1
+git diff > "$src/patch$n.rebased.diff"
 echo "== suite with patch"
-/verif/tools/repo_suite.sh "$wt" | tail -3
-suite_ok=$(/verif/tools/repo_suite.sh "$wt" | grep -c "SUITE OK")
+so=$(/verif/tools/repo_suite.sh "$wt"); echo "$so" | tail -3
+suite_ok=$(echo "$so" | grep -c "SUITE OK")
+if [ -f "$demo" ]; then cp "$demo" tests/$tname.rs; fi
 echo "== demo with patch"
-cargo test --offline --test $tname 2>&1 | grep -E "^test result|^error" | head -5
-ch=$(cargo test --offline --test $tname 2>&1 | grep -cE "^test result: FAILED|^error")
-git diff -- . ':!tests' > "$src/patch$n.rebased.diff"
-if [ "$pr" -ge 1 ] && [ "$suite_ok" -ge 1 ] && [ "$ch" -ge 1 ]; then echo "VERDICT: CONFIRMED"; else echo "VERDICT: NOT-CONFIRMED pristine_demo_ok=$pr suite_ok=$suite_ok demo_fails_with_patch=$ch"; fi
+d1=$(cargo test --offline $feat --test $tname 2>&1); echo "$d1" | grep -E "^test result|^error" | head -5
+ch=$(echo "$d1" | grep -cE "^test result: FAILED|^error")
+echo "== demo on pristine"
+git checkout -q -- src asn1rs-model asn1rs-macros Cargo.toml 2>/dev/null
+d2=$(cargo test --offline $feat --test $tname 2>&1); echo "$d2" | grep -E "^test result|^error" | head -5
+pr=$(echo "$d2" | grep -cE "^test result: ok")
+bad=$(echo "$d2" | grep -cE "^test result: FAILED|^error")
+if [ "$pr" -ge 1 ] && [ "$bad" -eq 0 ] && [ "$suite_ok" -ge 1 ] && [ "$ch" -ge 1 ]; then echo "VERDICT: CONFIRMED"; else echo "VERDICT: NOT-CONFIRMED pristine_demo_ok=$pr pristine_demo_bad=$bad suite_ok=$suite_ok demo_fails_with_patch=$ch"; fi
 } > "$log" 2>&1
 cd /
 git -C /repo worktree remove --force "$wt"
